@@ -37,7 +37,7 @@ func TestMain(m *testing.M) {
 }
 
 func gen1(t *rapid.T) Case {
-	cfg := gen.Cfg{Depth: 3, Full: true, Inline: "ims"}
+	cfg := gen.Cfg{Depth: 3, Full: true, Inline: "ims", Magic: true}
 	var c Case
 	if rapid.IntRange(0, 3).Draw(t, "fullspec") == 0 {
 		spec, root, _ := gen.FullSpec(t, cfg, true, true, true)
@@ -79,9 +79,9 @@ func gen1(t *rapid.T) Case {
 		var in []rune
 		switch {
 		case c.AST != nil && i%3 == 0:
-			in = gen.NearMiss(t, c.AST, alpha, 30)
+			in = gen.NearMiss(t, c.AST, alpha, 80)
 		case c.AST != nil:
-			in = gen.Directed(t, c.AST, false, alpha, false, 24)
+			in = gen.Directed(t, c.AST, false, alpha, false, 80)
 		default:
 			in = gen.Random(t, alpha, 16)
 		}
@@ -89,6 +89,8 @@ func gen1(t *rapid.T) Case {
 	}
 	return c
 }
+
+var errAbandon = fmt.Errorf("abandon")
 
 type failure struct {
 	red Case
@@ -127,7 +129,11 @@ func check(c Case) error {
 					continue
 				}
 				m, err := regexp2.VerifMatchAt(re, t, p, g)
-				if err != nil || m == nil {
+				if err != nil {
+					h.Discard("attempt-" + err.Error()[:7])
+					return errAbandon
+				}
+				if m == nil {
 					continue
 				}
 				anyMatch = true
@@ -155,12 +161,18 @@ func check(c Case) error {
 			ferr = one(in)
 			return ferr == nil
 		})
+		if ferr == errAbandon {
+			return nil
+		}
 		if ferr != nil {
 			return ferr
 		}
 	}
 	for _, s := range c.Inputs {
 		if err := one([]rune(s)); err != nil {
+			if err == errAbandon {
+				return nil
+			}
 			return err
 		}
 	}
